@@ -1,1 +1,68 @@
-def hello := "world"
+/-
+  Jmes.Basic — bytes, outcomes.
+
+  Every Go string (expressions, identifiers, string values) is a `Bytes`:
+  the properties quantify over arbitrary byte strings, and raw-string
+  literals can carry invalid UTF-8 into values.
+-/
+namespace Jmes
+
+abbrev Bytes := List UInt8
+
+/-- ASCII string literal as bytes (for tables and messages inside the model). -/
+def b (s : String) : Bytes := s.toUTF8.toList
+
+/-- The error kinds Go code can return.  Only `syntax` carries data that the
+    API exposes (`SyntaxError.Offset`); every other error is an opaque tag
+    (texts are not compared with the implementation). -/
+inductive Err where
+  | syntax (off : Int)      -- jmespath.SyntaxError{Offset: off}
+  | other (tag : String)    -- any other non-nil error
+  deriving Repr, DecidableEq, Inhabited
+
+/-- Outcome of a Go call: a value, a returned error, or a run-time panic
+    (failed type assertion, index out of range, …).  `panic` is explicit so
+    that "never panics" is a statement one can prove. -/
+inductive Res (α : Type) where
+  | ok (a : α)
+  | err (e : Err)
+  | panic (site : String)
+  deriving Repr, Inhabited
+
+namespace Res
+
+@[inline] def bind {α β} (r : Res α) (f : α → Res β) : Res β :=
+  match r with
+  | .ok a => f a
+  | .err e => .err e
+  | .panic s => .panic s
+
+instance : Monad Res where
+  pure := .ok
+  bind := Res.bind
+
+def isOk {α} : Res α → Bool | .ok _ => true | _ => false
+def isErr {α} : Res α → Bool | .err _ => true | _ => false
+def isPanic {α} : Res α → Bool | .panic _ => true | _ => false
+
+@[simp] theorem bind_ok {α β} (a : α) (f : α → Res β) : (Res.ok a >>= f) = f a := rfl
+@[simp] theorem bind_err {α β} (e : Err) (f : α → Res β) : ((Res.err e : Res α) >>= f) = .err e := rfl
+@[simp] theorem bind_panic {α β} (s : String) (f : α → Res β) : ((Res.panic s : Res α) >>= f) = .panic s := rfl
+@[simp] theorem pure_eq {α} (a : α) : (pure a : Res α) = .ok a := rfl
+
+/-- Left-to-right evaluation with the first non-ok outcome winning
+    (`for … { v, err := f(x); if err != nil { return nil, err } … }`). -/
+def mapM' {α β} (f : α → Res β) : List α → Res (List β)
+  | [] => .ok []
+  | x :: xs =>
+    match f x with
+    | .ok y => match mapM' f xs with
+      | .ok ys => .ok (y :: ys)
+      | .err e => .err e
+      | .panic s => .panic s
+    | .err e => .err e
+    | .panic s => .panic s
+
+end Res
+
+end Jmes
